@@ -37,7 +37,7 @@ EXHAUSTIVE = {"quick": "all 4 161 multigraphs with <= 3 nodes and <= 2 edges ove
               "thorough": "all 104 643 multigraphs with <= 3 nodes and <= 3 edges over weights {0,1,2} x 3 orientations, all ordered "
                           "pairs, all cut-offs equal to and midway between the exact distances"}
 SOFT_MONITORS = ['pop_smallest.monotone_no_double_settle', 'pop_smallest.returns_minimum_present_key']      # contracts on private helpers: diagnostics, see vt/runner.py
-CASE_LIMIT_S = 20.0
+CASE_LIMIT_S = 40.0
 
 PAIR = "distance.pair_vs_floyd_warshall"
 LIST = "distance.list_vs_floyd_warshall"
@@ -54,7 +54,11 @@ def chunks(tier, seed):
             out.append({"kind": "tiny_sample", "n": 250, "key": "tiny3s%d" % k})
         for k in range(18):
             out.append({"kind": "rand", "n": 60, "key": "rand%d" % k})
+        for k in range(4):
+            out.append({"kind": "big", "n": 1, "size": [200, 260, 330, 520][k], "key": "big%d" % k})
     else:
+        for k in range(12):
+            out.append({"kind": "big", "n": 1 if k % 4 < 3 else 1, "size": [200, 260, 330, 520, 800, 1200][k % 6], "key": "big%d" % k})
         for k in range(30):
             out.append({"kind": "tiny", "max_edges": 3, "shard": k, "of": 30, "key": "tiny%d" % k})
         for k in range(30):
@@ -70,7 +74,9 @@ def floors(tier):
                         "orient_two_way": 200, "orient_direct": 200, "orient_reverse": 200,
                         "unreachable_pair": 200, "isolated_node": 50, "tie": 100, "zero_distance_pair": 100,
                         "cut_equal": 500, "cut_below_some": 500, "cut_above_all": 500, "cut_default": 500,
-                        "nodes_10_to_12": 50 if q else 500, "edges_25_to_40": 30 if q else 300},
+                        "nodes_10_to_12": 50 if q else 500, "edges_25_to_40": 30 if q else 300,
+                        "network_of_hundreds_of_nodes": 4, "cut_given_as_numpy.int64": 100,
+                        "cut_given_as_numpy.float32": 100, "cut_given_as_int": 100},
             "distinct_nontrivial": 2000 if q else 50000}
 
 
@@ -131,11 +137,35 @@ def cases(chunk):
             if rng.random() < 0.5:
                 prep.append(None)
             yield {"kind": "rand", "g": spec, "cuts": cuts, "prep": prep, "ord": rng.randrange(1 << 30)}
+    elif kind == "big":
+        # larger scale: hundreds of nodes, thousands of edges (requests sampled)
+        for j in range(chunk["n"]):
+            n = chunk["size"]
+            spec = G.big_graph(rng, n, rng.choice([4, 8, 10]) * n)
+            yield {"kind": "big", "g": spec, "ord": rng.randrange(1 << 30)}
     else:
         raise M.HarnessError("unknown chunk kind %r" % kind)
 
 
 # --------------------------------------------------------------------------
+def _spell(cut, key):
+    """The same cut-off held in another numeric type (an element of a numpy array, a Python int): same value."""
+    import numpy as np
+    if cut is None or cut >= 1e299:
+        return cut, None
+    k = key % 5
+    if float(cut).is_integer():
+        if k == 1:
+            return int(cut), "int"
+        if k == 2:
+            return np.int64(int(cut)), "numpy.int64"
+    if k == 3 and float(np.float32(cut)) == float(cut):
+        return np.float32(cut), "numpy.float32"
+    if k == 4:
+        return np.float64(cut), "numpy.float64"
+    return cut, None
+
+
 def _spec_of(case):
     if case["kind"] == "tiny":
         spec = G.tiny_spec(case["n"], [tuple(e) for e in case["edges"]], geom=False)
@@ -222,6 +252,15 @@ def run_case(case, ctx):
         cuts = _all_cuts(D)
         prep = [cuts[len(cuts) // 2], ds[-1], None] if case["ord"] % 2 == 0 else [cuts[(len(cuts) - 1) // 2]]
         tag = "t"
+    elif case["kind"] == "big":
+        brng = random.Random(case["ord"] + 3)
+        if n <= 350:
+            cuts = sorted(set(brng.sample(ds, min(2, len(ds))) + [ds[len(ds) // 3] + 0.25]))
+        else:
+            cuts = [ds[len(ds) // 8] + (0.25 if case["ord"] % 2 else 0)]
+        prep = [ds[len(ds) // 6]] if case["ord"] % 2 and n <= 350 else []
+        tag = "b"
+        cls.add("network_of_hundreds_of_nodes")
     else:
         cuts = list(case["cuts"])
         prep = list(case["prep"])
@@ -236,11 +275,18 @@ def run_case(case, ctx):
         return violated(w, sig, nt, sorted(cls))
 
     net, ids, nodes, _e = G.build_network(spec, random.Random(case["ord"] + 1) if case["ord"] % 3 == 0 else None)
-    ops = [("pair", s, t) for s in range(n) for t in range(n)]
-    ops += [("list", s, None) for s in range(n)]
-    ops += [("pair_cut", s, t) for s in range(n) for t in range(n) if (s * 7 + t * 3 + case["ord"]) % 3 == 0]
-    ops += [("fail", s, (s + case["ord"]) % n) for s in range(n) if (s + case["ord"]) % 2 == 0]
-    ops += [("table", c, None) for c in cuts] + [("table", None, None)]
+    if case["kind"] == "big":
+        ops = [("pair", brng.randrange(n), brng.randrange(n)) for _ in range(80)]
+        ops += [("list", brng.randrange(n), None) for _ in range(8)]
+        ops += [("pair_cut", brng.randrange(n), brng.randrange(n)) for _ in range(30)]
+        ops += [("fail", brng.randrange(n), brng.randrange(n)) for _ in range(2)]
+        ops += [("table", c, None) for c in cuts] + ([("table", None, None)] if n <= 280 else [])
+    else:
+        ops = [("pair", s, t) for s in range(n) for t in range(n)]
+        ops += [("list", s, None) for s in range(n)]
+        ops += [("pair_cut", s, t) for s in range(n) for t in range(n) if (s * 7 + t * 3 + case["ord"]) % 3 == 0]
+        ops += [("fail", s, (s + case["ord"]) % n) for s in range(n) if (s + case["ord"]) % 2 == 0]
+        ops += [("table", c, None) for c in cuts] + [("table", None, None)]
     random.Random(case["ord"]).shuffle(ops)
     shared = {}
     for i, (op, a, b) in enumerate(ops):
@@ -259,7 +305,11 @@ def run_case(case, ctx):
             s, t = a, b
             d = D[s][t]
             cut = random.Random(case["ord"] * 1000 + i).choice(ds + [x - 0.25 for x in ds] + [x + 0.25 for x in ds] + [0.0])
-            r = M.call(net.shortest_distance, ids[s], ids[t], cut)
+            cut_given, tname = _spell(cut, case["ord"] + i)
+            if tname:
+                cls.add("cut_given_as_" + tname)
+                ctx.count("cut_given_in_another_numeric_type")
+            r = M.call(net.shortest_distance, ids[s], ids[t], cut_given)
             ctx.count("pair_request_with_cut")
             if d != G.INF and d <= cut:
                 ctx.monitor(PAIR)
@@ -334,7 +384,11 @@ def run_case(case, ctx):
             elif cut is None:
                 tbl = M.call(net.all_shortest_distances)
             else:
-                tbl = M.call(net.all_shortest_distances, cut)
+                cut_given, tname = _spell(cut, case["ord"] + i)
+                if tname:
+                    cls.add("cut_given_as_" + tname)
+                    ctx.count("cut_given_in_another_numeric_type")
+                tbl = M.call(net.all_shortest_distances, cut_given)
             ctx.monitor(TABLE)
             w = _check_table(tbl, D, ids, cut, "all_shortest_distances")
             if w:
@@ -378,15 +432,18 @@ def run_case(case, ctx):
         if cut is None:
             r = M.call(net2.prepare, verbose=False)
         else:
-            r = M.call(net2.prepare, cut, False)
+            cut_given, tname = _spell(cut, case["ord"] + 2)
+            if tname:
+                cls.add("cut_given_as_" + tname)
+            r = M.call(net2.prepare, cut_given, False)
         if M.is_raised(r):
             return bad({"what": "prepare raised", "cut": cut, "raised": r})
         ctx.monitor(TABLE)
         w = _check_table(net2.DISTANCES, D, ids2, cut, "prepare")
         if w:
             return bad(w)
-        for s in range(n):
-            for t in range(n):
+        for s in (range(n) if n <= 40 else random.Random(case["ord"]).sample(range(n), 12)):
+            for t in (range(n) if n <= 40 else random.Random(case["ord"] + s).sample(range(n), 12)):
                 d = D[s][t]
                 inside = d != G.INF and (cut is None or d <= cut)
                 if (s + t) % 2:
